@@ -156,34 +156,33 @@ MUTATORS = ('append', 'extend', 'insert', 'pop', 'remove', 'clear', 'update', 's
 def readonly_frame(repo, specs, may_call=(), tag='readonly', immutable_params=()):
     """Frame obligation "this function only reads": one record per (relpath, qualname) in specs.  The function may not update in place
     anything reachable from its parameters (self included): no item/attribute/slice store, augmented store or delete whose root is a
-    parameter or a local name bound to (part of) one, no mutator method call or heapq operation on such a root, and every method it calls
-    on a parameter is itself in `specs`/`may_call` (so the obligation is closed under calls).  Syntactic, hence over all paths."""
+    parameter or a local name bound to (part of) one, no mutator method call or heapq operation on such a root.  The obligation is closed
+    under calls: a method called on `self` or a function of the same file that receives (part of) a parameter is analysed the same way
+    with the corresponding parameters (a helper extracted from a covered function is followed, not rejected); functions named in
+    `specs`/`may_call` have their own obligation / are accepted.  A call that can be resolved to none of these and receives part of a
+    parameter leaves the obligation undecided - only an updating statement that was found is a violation.  Syntactic, hence over all
+    paths."""
     by_file = {}
     specs = [tuple(x) + (None,) * (3 - len(x)) for x in specs]      # (relpath, qualname, [only these parameters] or None = all)
     names = {q.rsplit('.', 1)[-1] for _, q, _o in specs} | set(may_call)
     records = []
-    for rel, qn, only in specs:
-        path = os.path.join(repo, rel)
-        key = '%s:%s' % (rel, qn)
-        name = '%s.frame.%s.%s' % (tag, rel.replace('/', '.').replace('.py', ''), qn)
-        if rel not in by_file:
-            by_file[rel] = dict(functions_of(path)) if os.path.exists(path) else {}
-        node = by_file[rel].get(qn)
-        if node is None:
-            records.append({'name': name, 'ok': False, 'undecided': True, 'detail': 'function not found (renamed or moved?)', 'fn': key, 'site': key})
-            continue
-        params = {a.arg for a in node.args.args}
-        if only is not None:
-            params = params & set(only)
+    PURE_METHODS = ('format', 'upper', 'lower', 'join', 'get', 'keys', 'values', 'items', 'getint', 'getfloat', 'getboolean', 'has_option',
+                    'is_alive', 'isdigit', 'isalpha', 'strip', 'rstrip', 'lstrip', 'split', 'startswith', 'endswith', 'count', 'index', 'find',
+                    'copy', 'most_common', 'isupper', 'islower', 'encode', 'decode', 'replace')
+    PURE_FUNCS = ('len', 'int', 'str', 'float', 'print', 'range', 'enumerate', 'reversed', 'sorted', 'list', 'tuple', 'isinstance', 'min', 'max',
+                  'sum', 'abs', 'repr', 'format', 'perf_counter', 'bool', 'dict', 'set', 'frozenset', 'zip', 'any', 'all', 'iter', 'id', 'type',
+                  'ord', 'chr', 'round')
+
+    def root_of(t):
+        cur, steps = t, 0
+        while isinstance(cur, (ast.Subscript, ast.Attribute, ast.Starred)):
+            cur = cur.value
+            steps += 1
+        return (cur.id, steps) if isinstance(cur, ast.Name) else (None, 0)
+
+    def analyse(rel, qn, node, params):
+        """-> (updating statements, unresolved calls, [(qualname, node, tainted parameters)] to follow in the same file)"""
         tainted = set(params)
-
-        def root_of(t):
-            cur, steps = t, 0
-            while isinstance(cur, (ast.Subscript, ast.Attribute, ast.Starred)):
-                cur = cur.value
-                steps += 1
-            return (cur.id, steps) if isinstance(cur, ast.Name) else (None, 0)
-
         body_nodes = []
         stack = list(node.body)
         while stack:
@@ -204,12 +203,39 @@ def readonly_frame(repo, specs, may_call=(), tag='readonly', immutable_params=()
                         if r in tainted and n.targets[0].id not in tainted:
                             tainted.add(n.targets[0].id)
                             changed = True
-                if isinstance(n, (ast.For,)) and isinstance(n.target, ast.Name):
-                    r, _ = root_of(n.iter)
-                    if r in tainted and n.target.id not in tainted:
-                        tainted.add(n.target.id)
-                        changed = True
-        bad = []
+                if isinstance(n, (ast.For,)):
+                    it = n.iter
+                    # enumerate(x) / reversed(x) / x.items() hand out the elements of x
+                    if isinstance(it, ast.Call) and isinstance(it.func, ast.Name) and it.func.id in ('enumerate', 'reversed', 'iter') and it.args:
+                        it = it.args[0]
+                    if isinstance(it, ast.Call) and isinstance(it.func, ast.Attribute) and it.func.attr in ('items', 'values'):
+                        it = it.func.value
+                    r, _ = root_of(it)
+                    if r in tainted:
+                        for tn in ast.walk(n.target):
+                            if isinstance(tn, ast.Name) and tn.id not in tainted:
+                                tainted.add(tn.id)
+                                changed = True
+        bad, unresolved, follow = [], [], []
+        cls = qn.rsplit('.', 1)[0] if '.' in qn else None
+        funcs = by_file[rel]
+
+        def tainted_params_of(callee, call, bound_self):
+            ps = [a.arg for a in callee.args.args]
+            out = set()
+            if bound_self and ps:
+                out.add(ps[0])
+                ps = ps[1:]
+            for i, arg in enumerate(call.args):
+                r, _ = root_of(arg)
+                if r in tainted and r not in immutable_params and i < len(ps):
+                    out.add(ps[i])
+            for k in call.keywords:
+                r, _ = root_of(k.value)
+                if r in tainted and r not in immutable_params and k.arg in ps:
+                    out.add(k.arg)
+            return out
+
         for n in body_nodes:
             tgts = []
             if isinstance(n, ast.Assign):
@@ -230,24 +256,70 @@ def readonly_frame(repo, specs, may_call=(), tag='readonly', immutable_params=()
                     if f.attr in MUTATORS and r in tainted:
                         bad.append((n.lineno, 'in-place update %s' % ast.unparse(f)))
                     elif r in params and isinstance(f.value, ast.Name) and f.attr not in names and not f.attr.startswith('__') \
-                            and f.attr not in ('format', 'upper', 'lower', 'join', 'get', 'keys', 'values', 'items', 'getint', 'getfloat',
-                                               'getboolean', 'has_option', 'is_alive', 'isdigit', 'isalpha', 'strip', 'rstrip', 'split'):
-                        bad.append((n.lineno, 'call to %s, which is not covered by this frame obligation' % ast.unparse(f)))
-                # a free function (or a function of another module) that receives part of a parameter could update it: it must be declared
+                            and f.attr not in PURE_METHODS:
+                        callee = funcs.get('%s.%s' % (cls, f.attr)) if (cls and f.value.id == 'self') else None
+                        if callee is not None:
+                            static = any(isinstance(d, ast.Name) and d.id == 'staticmethod' for d in callee.decorator_list)
+                            follow.append(('%s.%s' % (cls, f.attr), callee, tainted_params_of(callee, n, not static)))
+                        else:
+                            unresolved.append((n.lineno, 'call to %s, which cannot be resolved to a function of this file' % ast.unparse(f)))
+                # a free function (or a function of another module) that receives part of a parameter could update it
                 if isinstance(f, ast.Name) or (isinstance(f, ast.Attribute) and root_of(f.value)[0] not in tainted):
                     fname = f.id if isinstance(f, ast.Name) else f.attr
-                    if fname not in names and fname not in ('len', 'int', 'str', 'float', 'print', 'range', 'enumerate', 'reversed', 'sorted', 'list',
-                                                            'tuple', 'isinstance', 'min', 'max', 'sum', 'abs', 'repr', 'format', 'perf_counter'):
-                        for arg in list(n.args) + [k.value for k in n.keywords]:
-                            r3, _ = root_of(arg)
-                            if r3 in tainted and r3 not in immutable_params:
-                                bad.append((n.lineno, '%s receives %s and is not covered by this frame obligation' % (ast.unparse(f), ast.unparse(arg))))
+                    if fname not in names and fname not in PURE_FUNCS:
+                        got = [arg for arg in list(n.args) + [k.value for k in n.keywords]
+                               if root_of(arg)[0] in tainted and root_of(arg)[0] not in immutable_params]
+                        if got:
+                            callee = funcs.get(fname) if isinstance(f, ast.Name) else None
+                            if callee is not None:
+                                follow.append((fname, callee, tainted_params_of(callee, n, False)))
+                            else:
+                                for arg in got:
+                                    unresolved.append((n.lineno, '%s receives %s and cannot be resolved to a function of this file'
+                                                       % (ast.unparse(f), ast.unparse(arg))))
                 if isinstance(f, ast.Attribute) and ast.unparse(f) in ('heapq.heappush', 'heapq.heappop', 'heapq.heapify', 'random.shuffle') and n.args:
                         r2, _ = root_of(n.args[0])
                         if r2 in tainted:
                             bad.append((n.lineno, '%s on %s' % (ast.unparse(f), ast.unparse(n.args[0]))))
-        records.append({'name': name, 'ok': not bad, 'detail': '; '.join('line %d: %s' % b for b in sorted(set(bad))), 'fn': key, 'site': key,
-                        'witness': None if not bad else {'file': rel, 'function': qn, 'statements': sorted(set(bad))}})
+        return bad, unresolved, follow
+
+    for rel, qn, only in specs:
+        path = os.path.join(repo, rel)
+        key = '%s:%s' % (rel, qn)
+        name = '%s.frame.%s.%s' % (tag, rel.replace('/', '.').replace('.py', ''), qn)
+        if rel not in by_file:
+            by_file[rel] = dict(functions_of(path)) if os.path.exists(path) else {}
+        node = by_file[rel].get(qn)
+        if node is None:
+            records.append({'name': name, 'ok': False, 'undecided': True, 'detail': 'function not found (renamed or moved?)', 'fn': key, 'site': key})
+            continue
+        params = {a.arg for a in node.args.args}
+        if only is not None:
+            params = params & set(only)
+        bad, unresolved, followed = [], [], []
+        work = [(qn, node, frozenset(params))]
+        seen = set()
+        while work:
+            q2, n2, ps = work.pop()
+            if (q2, ps) in seen or len(seen) > 40:
+                continue
+            seen.add((q2, ps))
+            b, u, fol = analyse(rel, q2, n2, set(ps))
+            where = '' if q2 == qn else ' (in %s, reached by a call)' % q2
+            bad += [(ln, what + where) for ln, what in b]
+            unresolved += [(ln, what + where) for ln, what in u]
+            if q2 != qn:
+                followed.append(q2)
+            for q3, n3, ps3 in fol:
+                work.append((q3, n3, frozenset(ps3)))
+        rec = {'name': name, 'ok': not bad and not unresolved, 'fn': key, 'site': key,
+               'detail': '; '.join('line %d: %s' % b for b in sorted(set(bad + unresolved))),
+               'witness': None if not bad else {'file': rel, 'function': qn, 'statements': sorted(set(bad))}}
+        if followed:
+            rec['followed'] = sorted(set(followed))
+        if not bad and unresolved:
+            rec['undecided'] = True
+        records.append(rec)
     return records
 
 
@@ -286,13 +358,20 @@ def fs_write_frame(repo, rel, allowed, tag='fs'):
         if callable(want):
             # a predicate over the call nodes (robust against renamed variables): want(function node, [call nodes]) -> bool
             calls = [ch for ch in ast.walk(node) if isinstance(ch, ast.Call) and ast.unparse(ch) in got]
-            ok = bool(want(node, calls))
+            # the predicate answers True (only the allowed update), False (a different update: violation) or None (the written path cannot
+            # be resolved syntactically: undecided, the bounded stand-in decides)
+            verdict = want(node, calls)
+            ok = verdict is True
             want = 'predicate %s' % getattr(want, '__name__', 'allowed')
         else:
-            ok = sorted(got) == sorted(want)
-        records.append({'name': '%s.frame.%s.%s' % (tag, rel.replace('/', '.').replace('.py', ''), qn), 'ok': ok,
-                        'detail': '' if ok else 'file-system updates %r, allowed %r' % (sites, want), 'fn': '%s:%s' % (rel, qn), 'site': '%s:%s' % (rel, qn),
-                        'witness': None if ok else {'file': rel, 'function': qn, 'statements': sites, 'allowed': want}})
+            verdict = ok = sorted(got) == sorted(want)
+        rec = {'name': '%s.frame.%s.%s' % (tag, rel.replace('/', '.').replace('.py', ''), qn), 'ok': ok,
+               'detail': '' if ok else 'file-system updates %r, allowed %r' % (sites, want), 'fn': '%s:%s' % (rel, qn), 'site': '%s:%s' % (rel, qn),
+               'witness': None if ok else {'file': rel, 'function': qn, 'statements': sites, 'allowed': want}}
+        if verdict is None:
+            rec['undecided'] = True
+            rec['witness'] = None
+        records.append(rec)
     return records
 
 
